@@ -795,26 +795,37 @@ class TypesCodeGenerator:
     def _add_and_types(self, lsp_model: model.LSPModel) -> None:
         # Collect all and types in the model from known locations
         and_types = []
+
+        # The names have to be the ones `METHOD_TO_TYPES` refers to: built from the
+        # message class name, which always ends with the kind of the message.
+        def _message_class_name(message, suffix: str) -> str:
+            name = _get_class_name(message)
+            return name if name.endswith(suffix) else f"{name}{suffix}"
+
         for request in lsp_model.requests:
             if request.params:
                 if request.params.kind == "and":
-                    class_name = f"{_get_class_name(request)}Params"
+                    class_name = f"{_message_class_name(request, 'Request')}Params"
                     and_types.append((f"{class_name}", request.params))
 
             if request.registrationOptions:
                 if request.registrationOptions.kind == "and":
-                    class_name = f"{_get_class_name(request)}Options"
+                    class_name = f"{_message_class_name(request, 'Request')}Options"
                     and_types.append((f"{class_name}", request.registrationOptions))
 
         for notification in lsp_model.notifications:
             if notification.params:
                 if notification.params.kind == "and":
-                    class_name = f"{_get_class_name(notification)}Params"
+                    class_name = (
+                        f"{_message_class_name(notification, 'Notification')}Params"
+                    )
                     and_types.append((f"{class_name}", notification.params))
 
             if notification.registrationOptions:
                 if notification.registrationOptions.kind == "and":
-                    class_name = f"{_get_class_name(notification)}Options"
+                    class_name = (
+                        f"{_message_class_name(notification, 'Notification')}Options"
+                    )
                     and_types.append(
                         (f"{class_name}", notification.registrationOptions)
                     )
